@@ -2,6 +2,7 @@ package main
 
 import (
 	"fmt"
+	"strconv"
 	"strings"
 	"time"
 )
@@ -172,6 +173,52 @@ func genBuiltinCalls(stream string, seed uint64, perFn int) []GenCase {
 	for _, pat := range []string{"\"(\"", "/(/", "\"[\"", "\"a{2,1}\"", "\"*\"", "Name + \"(\"", "\"\\\\\""} {
 		add(fmt.Sprintf("return [replace(\"abc\", %s, \"x\"), match(\"abc\", %s)];", pat, pat), "invalid-pattern")
 		add(fmt.Sprintf("if (\"abc\" ~= %s) { return 1; } return replace(Name, %s, \"\");", pat, pat), "invalid-pattern")
+	}
+	// sprintf formats its arguments as Go's fmt does for the Go value each script value stands for (integer: int64,
+	// float: float64, string, boolean): every verb x every kind of argument, the expectation computed by fmt itself
+	{
+		type sv struct {
+			lit string
+			gov interface{}
+		}
+		vals := []sv{{"2.0", float64(2)}, {"2.5", 2.5}, {"10.0", float64(10)}, {"0.0", float64(0)}, {"100000.0", float64(100000)}, {"7", int64(7)}, {"-3", int64(-3)}, {"70000", int64(70000)},
+			{"\"s\"", "s"}, {"\"\"", ""}, {"true", true}, {"false", false}}
+		for _, verb := range []string{"%d", "%s", "%v", "%t", "%f", "%.2f", "%e", "%g", "%x", "%q", "%5d|", "%-5s|", "%05d", "%5.1f|", "%c", "%b", "%o", "%+d", "%T"} {
+			for _, v := range vals {
+				want := fmt.Sprintf("<"+verb+">", v.gov)
+				c := Case{ID: fmt.Sprintf("%s-%d", stream, id), Opt: r.Bool(), Fns: []HostFn{recFn()}, Tags: []string{"sprintf-verbs", "verb:" + verb},
+					Script: fmt.Sprintf("return sprintf(\"<%s>\", %s);", verb, v.lit), Runs: []Run{{Obj: stdObject(r), Polls: defaultPolls}}}
+				id++
+				out = append(out, GenCase{Case: c, Stream: stream, NonTrivial: true, Role: "expect:" + hexs(want), ModelFree: true})
+			}
+		}
+		for _, p := range [][2]string{{"sprintf(\"%d %d\", 1)", fmt.Sprintf("%d %d", int64(1))}, {"sprintf(\"%d\", 1, 2)", fmt.Sprintf("%d", int64(1), int64(2))}, {"sprintf(\"100%%\")", "100%"},
+			{"sprintf(\"%s=%d\", \"a\", 2.0)", fmt.Sprintf("%s=%d", "a", float64(2))}, {"sprintf(\"%%d\", 1)", fmt.Sprintf("%%d", int64(1))}, {"sprintf(\"\")", ""}} {
+			c := Case{ID: fmt.Sprintf("%s-%d", stream, id), Opt: r.Bool(), Fns: []HostFn{recFn()}, Tags: []string{"sprintf-verbs"},
+				Script: "return " + p[0] + ";", Runs: []Run{{Obj: stdObject(r), Polls: defaultPolls}}}
+			id++
+			out = append(out, GenCase{Case: c, Stream: stream, NonTrivial: true, Role: "expect:" + hexs(p[1]), ModelFree: true})
+		}
+	}
+	// int() reads a DECIMAL integer (strconv.ParseInt base 10 of the printed argument) and float() a decimal
+	// float; anything else is null: no octal, no hex, no underscores, no blanks, no sign tricks
+	for _, in := range []string{"010", "0644", "09", "0x10", "0X1F", "0b11", "0o17", "1_000", " 12", "12 ", "+5", "-7", "--7", "1e3", "12.5", "", "abc", "9223372036854775807", "9223372036854775808", "-9223372036854775808", "00", "-0", "0.0", "1.", ".5", "inf", "NaN", "1,5", "0x1p3", "1__0"} {
+		wantI := "null:null"
+		if v, err := strconv.ParseInt(in, 10, 64); err == nil {
+			wantI = "integer:" + fmt.Sprint(v)
+		}
+		c := Case{ID: fmt.Sprintf("%s-%d", stream, id), Opt: r.Bool(), Fns: []HostFn{recFn()}, Tags: []string{"int-of-string"},
+			Script: fmt.Sprintf("x = int(%q); return type(x) + \":\" + string(x);", in), Runs: []Run{{Obj: stdObject(r), Polls: defaultPolls}}}
+		id++
+		out = append(out, GenCase{Case: c, Stream: stream, NonTrivial: true, Role: "expect:" + hexs(wantI)})
+		wantF := "null"
+		if _, err := strconv.ParseFloat(in, 64); err == nil {
+			wantF = "float"
+		}
+		c2 := Case{ID: fmt.Sprintf("%s-%d", stream, id), Opt: r.Bool(), Fns: []HostFn{recFn()}, Tags: []string{"float-of-string"},
+			Script: fmt.Sprintf("return type(float(%q));", in), Runs: []Run{{Obj: stdObject(r), Polls: defaultPolls}}}
+		id++
+		out = append(out, GenCase{Case: c2, Stream: stream, NonTrivial: true, Role: "expect:" + hexs(wantF)})
 	}
 	// case-insensitive sorting folds to LOWER case: characters between `Z` and `a` ([ \ ] ^ _ `) sort after the letters' upper forms
 	for _, arr := range []string{"[\"b\", \"_x\", \"A\"]", "[\"a\", \"Z\", \"^\", \"[\", \"_\", \"`\", \"z\", \"A\"]", "[\"B_\", \"b^\", \"Ba\", \"bA\", \"b_\"]", "[\"é\", \"É\", \"e\", \"Z\", \"_\"]"} {
